@@ -1,0 +1,487 @@
+//! Tree-building visitors with a caller-chosen interest mask and a caller-chosen set of declined
+//! classes / members. Thin wrappers around the visitors of `visitor::implementations::tree`; they exist
+//! because the field, record component and unknown attribute visitor traits are crate-private.
+
+use std::ops::ControlFlow;
+use std::rc::Rc;
+use anyhow::Result;
+use java_string::JavaString;
+use crate::tree::annotation::{Annotation, ElementValue};
+use crate::tree::attribute::Attribute;
+use crate::tree::class::{ClassAccess, ClassFile, ClassName, ClassSignature, EnclosingMethod, InnerClass, ObjClassName};
+use crate::tree::field::{ConstantValue, Field, FieldAccess, FieldDescriptor, FieldName, FieldSignature};
+use crate::tree::method::{Method, MethodAccess, MethodDescriptor, MethodName, MethodParameter, MethodSignature};
+use crate::tree::method::code::{Code, Exception, Instruction, Label, Lv};
+use crate::tree::module::{Module, PackageName};
+use crate::tree::record::{RecordComponent, RecordName};
+use crate::tree::type_annotation::{TargetInfoClass, TargetInfoCode, TargetInfoField, TargetInfoMethod, TypeAnnotation};
+use crate::tree::version::Version;
+use crate::visitor::class::{ClassInterests, ClassVisitor};
+use crate::visitor::field::{FieldInterests, FieldVisitor};
+use crate::visitor::method::code::{CodeInterests, CodeVisitor, StackMapData};
+use crate::visitor::method::{MethodInterests, MethodVisitor};
+use crate::visitor::MultiClassVisitor;
+use crate::visitor::record::{RecordComponentInterests, RecordComponentVisitor};
+
+/// Interest flags in the declaration order of the `*Interests` structs, and the ordinals
+/// (0-based, per class) of the items to decline.
+#[derive(Debug, Clone, Default)]
+pub struct MaskPlan {
+	pub class: [bool; 19],
+	pub field: [bool; 7],
+	pub method: [bool; 12],
+	pub code: [bool; 7],
+	pub record: [bool; 6],
+	/// ordinals in the stream of classes given to one `MaskedMulti`
+	pub decline_classes: Vec<usize>,
+	pub decline_fields: Vec<usize>,
+	pub decline_methods: Vec<usize>,
+	/// methods (by ordinal) whose `visit_code` returns `None`
+	pub decline_codes: Vec<usize>,
+	pub decline_records: Vec<usize>,
+}
+
+impl MaskPlan {
+	pub fn all() -> MaskPlan {
+		MaskPlan { class: [true; 19], field: [true; 7], method: [true; 12], code: [true; 7], record: [true; 6], ..MaskPlan::default() }
+	}
+}
+
+pub struct MaskedMulti {
+	plan: Rc<MaskPlan>,
+	next_class: usize,
+	pub classes: Vec<ClassFile>,
+}
+
+impl MaskedMulti {
+	pub fn new(plan: MaskPlan) -> MaskedMulti {
+		MaskedMulti { plan: Rc::new(plan), next_class: 0, classes: Vec::new() }
+	}
+}
+
+pub struct ClassState {
+	plan: Rc<MaskPlan>,
+	next_field: usize,
+	next_method: usize,
+	next_record: usize,
+}
+
+pub struct MaskedClass {
+	state: ClassState,
+	inner: ClassFile,
+}
+
+pub struct MaskedField {
+	plan: Rc<MaskPlan>,
+	inner: Field,
+}
+
+pub struct MaskedMethod {
+	plan: Rc<MaskPlan>,
+	decline_code: bool,
+	inner: Method,
+}
+
+pub struct MaskedCode {
+	plan: Rc<MaskPlan>,
+	inner: Code,
+}
+
+pub struct MaskedRecordComponent {
+	plan: Rc<MaskPlan>,
+	inner: RecordComponent,
+}
+
+impl MultiClassVisitor for MaskedMulti {
+	type ClassVisitor = MaskedClass;
+	type ClassResidual = (Rc<MaskPlan>, usize, Vec<ClassFile>);
+
+	fn visit_class(mut self, version: Version, access: ClassAccess, name: ObjClassName, super_class: Option<ObjClassName>, interfaces: Vec<ObjClassName>)
+			-> Result<ControlFlow<Self, (Self::ClassResidual, Self::ClassVisitor)>> {
+		let ordinal = self.next_class;
+		self.next_class += 1;
+		if self.plan.decline_classes.contains(&ordinal) {
+			return Ok(ControlFlow::Break(self));
+		}
+		let plan = self.plan.clone();
+		match self.classes.visit_class(version, access, name, super_class, interfaces)? {
+			ControlFlow::Continue((classes, class)) => {
+				let state = ClassState { plan: plan.clone(), next_field: 0, next_method: 0, next_record: 0 };
+				Ok(ControlFlow::Continue(((plan, self.next_class, classes), MaskedClass { state, inner: class })))
+			},
+			ControlFlow::Break(classes) => Ok(ControlFlow::Break(MaskedMulti { plan, next_class: self.next_class, classes })),
+		}
+	}
+
+	fn finish_class((plan, next_class, classes): Self::ClassResidual, class_visitor: Self::ClassVisitor) -> Result<Self> {
+		let classes = MultiClassVisitor::finish_class(classes, class_visitor.inner)?;
+		Ok(MaskedMulti { plan, next_class, classes })
+	}
+}
+
+impl ClassVisitor for MaskedClass {
+	type AnnotationsVisitor = Vec<Annotation>;
+	type AnnotationsResidual = (ClassState, <ClassFile as ClassVisitor>::AnnotationsResidual);
+	type TypeAnnotationsVisitor = Vec<TypeAnnotation<TargetInfoClass>>;
+	type TypeAnnotationsResidual = (ClassState, <ClassFile as ClassVisitor>::TypeAnnotationsResidual);
+	type RecordComponentVisitor = MaskedRecordComponent;
+	type RecordComponentResidual = (ClassState, <ClassFile as ClassVisitor>::RecordComponentResidual);
+	type FieldVisitor = MaskedField;
+	type FieldResidual = (ClassState, <ClassFile as ClassVisitor>::FieldResidual);
+	type MethodVisitor = MaskedMethod;
+	type MethodResidual = (ClassState, <ClassFile as ClassVisitor>::MethodResidual);
+	type UnknownAttribute = Attribute;
+
+	fn interests(&self) -> ClassInterests {
+		let m = &self.state.plan.class;
+		ClassInterests {
+			inner_classes: m[0],
+			enclosing_method: m[1],
+			signature: m[2],
+			source_file: m[3],
+			source_debug_extension: m[4],
+			runtime_visible_annotations: m[5],
+			runtime_invisible_annotations: m[6],
+			runtime_visible_type_annotations: m[7],
+			runtime_invisible_type_annotations: m[8],
+			module: m[9],
+			module_packages: m[10],
+			module_main_class: m[11],
+			nest_host: m[12],
+			nest_members: m[13],
+			permitted_subclasses: m[14],
+			record: m[15],
+			unknown_attributes: m[16],
+			fields: m[17],
+			methods: m[18],
+		}
+	}
+
+	fn visit_deprecated_and_synthetic_attribute(&mut self, deprecated: bool, synthetic: bool) -> Result<()> {
+		self.inner.visit_deprecated_and_synthetic_attribute(deprecated, synthetic)
+	}
+	fn visit_inner_classes(&mut self, inner_classes: Vec<InnerClass>) -> Result<()> {
+		self.inner.visit_inner_classes(inner_classes)
+	}
+	fn visit_enclosing_method(&mut self, enclosing_method: EnclosingMethod) -> Result<()> {
+		self.inner.visit_enclosing_method(enclosing_method)
+	}
+	fn visit_signature(&mut self, signature: ClassSignature) -> Result<()> {
+		self.inner.visit_signature(signature)
+	}
+	fn visit_source_file(&mut self, source_file: JavaString) -> Result<()> {
+		self.inner.visit_source_file(source_file)
+	}
+	fn visit_source_debug_extension(&mut self, source_debug_extension: JavaString) -> Result<()> {
+		self.inner.visit_source_debug_extension(source_debug_extension)
+	}
+
+	fn visit_annotations(self, visible: bool) -> Result<(Self::AnnotationsResidual, Self::AnnotationsVisitor)> {
+		let (residual, visitor) = self.inner.visit_annotations(visible)?;
+		Ok(((self.state, residual), visitor))
+	}
+	fn finish_annotations((state, residual): Self::AnnotationsResidual, annotations_visitor: Self::AnnotationsVisitor) -> Result<Self> {
+		Ok(MaskedClass { state, inner: ClassVisitor::finish_annotations(residual, annotations_visitor)? })
+	}
+	fn visit_type_annotations(self, visible: bool) -> Result<(Self::TypeAnnotationsResidual, Self::TypeAnnotationsVisitor)> {
+		let (residual, visitor) = self.inner.visit_type_annotations(visible)?;
+		Ok(((self.state, residual), visitor))
+	}
+	fn finish_type_annotations((state, residual): Self::TypeAnnotationsResidual, type_annotations_visitor: Self::TypeAnnotationsVisitor) -> Result<Self> {
+		Ok(MaskedClass { state, inner: ClassVisitor::finish_type_annotations(residual, type_annotations_visitor)? })
+	}
+
+	fn visit_module(&mut self, module: Module) -> Result<()> {
+		self.inner.visit_module(module)
+	}
+	fn visit_module_packages(&mut self, module_packages: Vec<PackageName>) -> Result<()> {
+		self.inner.visit_module_packages(module_packages)
+	}
+	fn visit_module_main_class(&mut self, module_main_class: ClassName) -> Result<()> {
+		self.inner.visit_module_main_class(module_main_class)
+	}
+	fn visit_nest_host_class(&mut self, nest_host_class: ClassName) -> Result<()> {
+		self.inner.visit_nest_host_class(nest_host_class)
+	}
+	fn visit_nest_members(&mut self, nest_members: Vec<ClassName>) -> Result<()> {
+		self.inner.visit_nest_members(nest_members)
+	}
+	fn visit_permitted_subclasses(&mut self, permitted_subclasses: Vec<ClassName>) -> Result<()> {
+		self.inner.visit_permitted_subclasses(permitted_subclasses)
+	}
+
+	fn visit_record_component(mut self, name: RecordName, descriptor: FieldDescriptor)
+			-> Result<ControlFlow<Self, (Self::RecordComponentResidual, Self::RecordComponentVisitor)>> {
+		let ordinal = self.state.next_record;
+		self.state.next_record += 1;
+		if self.state.plan.decline_records.contains(&ordinal) {
+			return Ok(ControlFlow::Break(self));
+		}
+		let plan = self.state.plan.clone();
+		Ok(match self.inner.visit_record_component(name, descriptor)? {
+			ControlFlow::Continue((residual, inner)) => ControlFlow::Continue(((self.state, residual), MaskedRecordComponent { plan, inner })),
+			ControlFlow::Break(inner) => ControlFlow::Break(MaskedClass { state: self.state, inner }),
+		})
+	}
+	fn finish_record_component((state, residual): Self::RecordComponentResidual, record_component_visitor: Self::RecordComponentVisitor) -> Result<Self> {
+		Ok(MaskedClass { state, inner: ClassVisitor::finish_record_component(residual, record_component_visitor.inner)? })
+	}
+
+	fn visit_unknown_attribute(&mut self, unknown_attribute: Self::UnknownAttribute) -> Result<()> {
+		self.inner.visit_unknown_attribute(unknown_attribute)
+	}
+
+	fn visit_field(mut self, access: FieldAccess, name: FieldName, descriptor: FieldDescriptor)
+			-> Result<ControlFlow<Self, (Self::FieldResidual, Self::FieldVisitor)>> {
+		let ordinal = self.state.next_field;
+		self.state.next_field += 1;
+		if self.state.plan.decline_fields.contains(&ordinal) {
+			return Ok(ControlFlow::Break(self));
+		}
+		let plan = self.state.plan.clone();
+		Ok(match self.inner.visit_field(access, name, descriptor)? {
+			ControlFlow::Continue((residual, inner)) => ControlFlow::Continue(((self.state, residual), MaskedField { plan, inner })),
+			ControlFlow::Break(inner) => ControlFlow::Break(MaskedClass { state: self.state, inner }),
+		})
+	}
+	fn finish_field((state, residual): Self::FieldResidual, field_visitor: Self::FieldVisitor) -> Result<Self> {
+		Ok(MaskedClass { state, inner: ClassVisitor::finish_field(residual, field_visitor.inner)? })
+	}
+
+	fn visit_method(mut self, access: MethodAccess, name: MethodName, descriptor: MethodDescriptor)
+			-> Result<ControlFlow<Self, (Self::MethodResidual, Self::MethodVisitor)>> {
+		let ordinal = self.state.next_method;
+		self.state.next_method += 1;
+		if self.state.plan.decline_methods.contains(&ordinal) {
+			return Ok(ControlFlow::Break(self));
+		}
+		let plan = self.state.plan.clone();
+		let decline_code = plan.decline_codes.contains(&ordinal);
+		Ok(match self.inner.visit_method(access, name, descriptor)? {
+			ControlFlow::Continue((residual, inner)) => ControlFlow::Continue(((self.state, residual), MaskedMethod { plan, decline_code, inner })),
+			ControlFlow::Break(inner) => ControlFlow::Break(MaskedClass { state: self.state, inner }),
+		})
+	}
+	fn finish_method((state, residual): Self::MethodResidual, method_visitor: Self::MethodVisitor) -> Result<Self> {
+		Ok(MaskedClass { state, inner: ClassVisitor::finish_method(residual, method_visitor.inner)? })
+	}
+}
+
+impl FieldVisitor for MaskedField {
+	type AnnotationsVisitor = Vec<Annotation>;
+	type AnnotationsResidual = (Rc<MaskPlan>, <Field as FieldVisitor>::AnnotationsResidual);
+	type TypeAnnotationsVisitor = Vec<TypeAnnotation<TargetInfoField>>;
+	type TypeAnnotationsResidual = (Rc<MaskPlan>, <Field as FieldVisitor>::TypeAnnotationsResidual);
+	type UnknownAttribute = Attribute;
+
+	fn interests(&self) -> FieldInterests {
+		let m = &self.plan.field;
+		FieldInterests {
+			constant_value: m[0],
+			signature: m[1],
+			runtime_visible_annotations: m[2],
+			runtime_invisible_annotations: m[3],
+			runtime_visible_type_annotations: m[4],
+			runtime_invisible_type_annotations: m[5],
+			unknown_attributes: m[6],
+		}
+	}
+
+	fn visit_deprecated_and_synthetic_attribute(&mut self, deprecated: bool, synthetic: bool) -> Result<()> {
+		self.inner.visit_deprecated_and_synthetic_attribute(deprecated, synthetic)
+	}
+	fn visit_constant_value(&mut self, constant_value: ConstantValue) -> Result<()> {
+		self.inner.visit_constant_value(constant_value)
+	}
+	fn visit_signature(&mut self, signature: FieldSignature) -> Result<()> {
+		self.inner.visit_signature(signature)
+	}
+	fn visit_annotations(self, visible: bool) -> Result<(Self::AnnotationsResidual, Self::AnnotationsVisitor)> {
+		let (residual, visitor) = self.inner.visit_annotations(visible)?;
+		Ok(((self.plan, residual), visitor))
+	}
+	fn finish_annotations((plan, residual): Self::AnnotationsResidual, annotations_visitor: Self::AnnotationsVisitor) -> Result<Self> {
+		Ok(MaskedField { plan, inner: FieldVisitor::finish_annotations(residual, annotations_visitor)? })
+	}
+	fn visit_type_annotations(self, visible: bool) -> Result<(Self::TypeAnnotationsResidual, Self::TypeAnnotationsVisitor)> {
+		let (residual, visitor) = self.inner.visit_type_annotations(visible)?;
+		Ok(((self.plan, residual), visitor))
+	}
+	fn finish_type_annotations((plan, residual): Self::TypeAnnotationsResidual, type_annotations_visitor: Self::TypeAnnotationsVisitor) -> Result<Self> {
+		Ok(MaskedField { plan, inner: FieldVisitor::finish_type_annotations(residual, type_annotations_visitor)? })
+	}
+	fn visit_unknown_attribute(&mut self, unknown_attribute: Self::UnknownAttribute) -> Result<()> {
+		self.inner.visit_unknown_attribute(unknown_attribute)
+	}
+}
+
+impl RecordComponentVisitor for MaskedRecordComponent {
+	type AnnotationsVisitor = Vec<Annotation>;
+	type AnnotationsResidual = (Rc<MaskPlan>, <RecordComponent as RecordComponentVisitor>::AnnotationsResidual);
+	type TypeAnnotationsVisitor = Vec<TypeAnnotation<TargetInfoField>>;
+	type TypeAnnotationsResidual = (Rc<MaskPlan>, <RecordComponent as RecordComponentVisitor>::TypeAnnotationsResidual);
+	type UnknownAttribute = Attribute;
+
+	fn interests(&self) -> RecordComponentInterests {
+		let m = &self.plan.record;
+		RecordComponentInterests {
+			signature: m[0],
+			runtime_visible_annotations: m[1],
+			runtime_invisible_annotations: m[2],
+			runtime_visible_type_annotations: m[3],
+			runtime_invisible_type_annotations: m[4],
+			unknown_attributes: m[5],
+		}
+	}
+
+	fn visit_signature(&mut self, signature: FieldSignature) -> Result<()> {
+		self.inner.visit_signature(signature)
+	}
+	fn visit_annotations(self, visible: bool) -> Result<(Self::AnnotationsResidual, Self::AnnotationsVisitor)> {
+		let (residual, visitor) = self.inner.visit_annotations(visible)?;
+		Ok(((self.plan, residual), visitor))
+	}
+	fn finish_annotations((plan, residual): Self::AnnotationsResidual, annotations_visitor: Self::AnnotationsVisitor) -> Result<Self> {
+		Ok(MaskedRecordComponent { plan, inner: RecordComponentVisitor::finish_annotations(residual, annotations_visitor)? })
+	}
+	fn visit_type_annotations(self, visible: bool) -> Result<(Self::TypeAnnotationsResidual, Self::TypeAnnotationsVisitor)> {
+		let (residual, visitor) = self.inner.visit_type_annotations(visible)?;
+		Ok(((self.plan, residual), visitor))
+	}
+	fn finish_type_annotations((plan, residual): Self::TypeAnnotationsResidual, type_annotations_visitor: Self::TypeAnnotationsVisitor) -> Result<Self> {
+		Ok(MaskedRecordComponent { plan, inner: RecordComponentVisitor::finish_type_annotations(residual, type_annotations_visitor)? })
+	}
+	fn visit_unknown_attribute(&mut self, unknown_attribute: Self::UnknownAttribute) -> Result<()> {
+		self.inner.visit_unknown_attribute(unknown_attribute)
+	}
+}
+
+impl MethodVisitor for MaskedMethod {
+	type AnnotationsVisitor = Vec<Annotation>;
+	type AnnotationsResidual = (Rc<MaskPlan>, bool, <Method as MethodVisitor>::AnnotationsResidual);
+	type TypeAnnotationsVisitor = Vec<TypeAnnotation<TargetInfoMethod>>;
+	type TypeAnnotationsResidual = (Rc<MaskPlan>, bool, <Method as MethodVisitor>::TypeAnnotationsResidual);
+	type AnnotationDefaultVisitor = Vec<ElementValue>;
+	type AnnotationDefaultResidual = (Rc<MaskPlan>, bool, <Method as MethodVisitor>::AnnotationDefaultResidual);
+	type CodeVisitor = MaskedCode;
+	type UnknownAttribute = Attribute;
+
+	fn interests(&self) -> MethodInterests {
+		let m = &self.plan.method;
+		MethodInterests {
+			code: m[0],
+			exceptions: m[1],
+			signature: m[2],
+			runtime_visible_annotations: m[3],
+			runtime_invisible_annotations: m[4],
+			runtime_visible_type_annotations: m[5],
+			runtime_invisible_type_annotations: m[6],
+			runtime_visible_parameter_annotations: m[7],
+			runtime_invisible_parameter_annotations: m[8],
+			annotation_default: m[9],
+			method_parameters: m[10],
+			unknown_attributes: m[11],
+		}
+	}
+
+	fn visit_deprecated_and_synthetic_attribute(&mut self, deprecated: bool, synthetic: bool) -> Result<()> {
+		self.inner.visit_deprecated_and_synthetic_attribute(deprecated, synthetic)
+	}
+	fn visit_exceptions(&mut self, exceptions: Vec<ClassName>) -> Result<()> {
+		self.inner.visit_exceptions(exceptions)
+	}
+	fn visit_signature(&mut self, signature: MethodSignature) -> Result<()> {
+		self.inner.visit_signature(signature)
+	}
+	fn visit_annotations(self, visible: bool) -> Result<(Self::AnnotationsResidual, Self::AnnotationsVisitor)> {
+		let (residual, visitor) = self.inner.visit_annotations(visible)?;
+		Ok(((self.plan, self.decline_code, residual), visitor))
+	}
+	fn finish_annotations((plan, decline_code, residual): Self::AnnotationsResidual, annotations_visitor: Self::AnnotationsVisitor) -> Result<Self> {
+		Ok(MaskedMethod { plan, decline_code, inner: MethodVisitor::finish_annotations(residual, annotations_visitor)? })
+	}
+	fn visit_type_annotations(self, visible: bool) -> Result<(Self::TypeAnnotationsResidual, Self::TypeAnnotationsVisitor)> {
+		let (residual, visitor) = self.inner.visit_type_annotations(visible)?;
+		Ok(((self.plan, self.decline_code, residual), visitor))
+	}
+	fn finish_type_annotations((plan, decline_code, residual): Self::TypeAnnotationsResidual, type_annotations_visitor: Self::TypeAnnotationsVisitor) -> Result<Self> {
+		Ok(MaskedMethod { plan, decline_code, inner: MethodVisitor::finish_type_annotations(residual, type_annotations_visitor)? })
+	}
+	fn visit_annotation_default(self) -> Result<(Self::AnnotationDefaultResidual, Self::AnnotationDefaultVisitor)> {
+		let (residual, visitor) = self.inner.visit_annotation_default()?;
+		Ok(((self.plan, self.decline_code, residual), visitor))
+	}
+	fn finish_annotation_default((plan, decline_code, residual): Self::AnnotationDefaultResidual, element_value_visitor: Self::AnnotationDefaultVisitor) -> Result<Self> {
+		Ok(MaskedMethod { plan, decline_code, inner: MethodVisitor::finish_annotation_default(residual, element_value_visitor)? })
+	}
+	fn visit_parameters(&mut self, method_parameters: Vec<MethodParameter>) -> Result<()> {
+		self.inner.visit_parameters(method_parameters)
+	}
+	fn visit_annotable_parameter_count(&mut self) {
+		self.inner.visit_annotable_parameter_count()
+	}
+	fn visit_parameter_annotation(&mut self) {
+		self.inner.visit_parameter_annotation()
+	}
+	fn visit_unknown_attribute(&mut self, unknown_attribute: Self::UnknownAttribute) -> Result<()> {
+		self.inner.visit_unknown_attribute(unknown_attribute)
+	}
+	fn visit_code(&mut self) -> Result<Option<Self::CodeVisitor>> {
+		if self.decline_code {
+			return Ok(None);
+		}
+		let plan = self.plan.clone();
+		Ok(self.inner.visit_code()?.map(|inner| MaskedCode { plan, inner }))
+	}
+	fn finish_code(&mut self, code_visitor: Self::CodeVisitor) -> Result<()> {
+		self.inner.finish_code(code_visitor.inner)
+	}
+}
+
+impl CodeVisitor for MaskedCode {
+	type TypeAnnotationsVisitor = Vec<TypeAnnotation<TargetInfoCode>>;
+	type TypeAnnotationsResidual = (Rc<MaskPlan>, <Code as CodeVisitor>::TypeAnnotationsResidual);
+	type UnknownAttribute = Attribute;
+
+	fn interests(&self) -> CodeInterests {
+		let m = &self.plan.code;
+		CodeInterests {
+			stack_map_table: m[0],
+			line_number_table: m[1],
+			local_variable_table: m[2],
+			local_variable_type_table: m[3],
+			runtime_visible_type_annotations: m[4],
+			runtime_invisible_type_annotations: m[5],
+			unknown_attributes: m[6],
+		}
+	}
+
+	fn visit_max_stack_and_max_locals(&mut self, max_stack: u16, max_locals: u16) -> Result<()> {
+		self.inner.visit_max_stack_and_max_locals(max_stack, max_locals)
+	}
+	fn visit_exception_table(&mut self, exception_table: Vec<Exception>) -> Result<()> {
+		self.inner.visit_exception_table(exception_table)
+	}
+	fn visit_instruction(&mut self, label: Option<Label>, frame: Option<StackMapData>, instruction: Instruction) -> Result<()> {
+		self.inner.visit_instruction(label, frame, instruction)
+	}
+	fn visit_last_label(&mut self, last_label: Label) -> Result<()> {
+		self.inner.visit_last_label(last_label)
+	}
+	fn visit_line_numbers(&mut self, line_number_table: Vec<(Label, u16)>) -> Result<()> {
+		self.inner.visit_line_numbers(line_number_table)
+	}
+	fn visit_local_variables(&mut self, local_variables: Vec<Lv>) -> Result<()> {
+		self.inner.visit_local_variables(local_variables)
+	}
+	fn visit_type_annotations(self, visible: bool) -> Result<(Self::TypeAnnotationsResidual, Self::TypeAnnotationsVisitor)> {
+		let (residual, visitor) = self.inner.visit_type_annotations(visible)?;
+		Ok(((self.plan, residual), visitor))
+	}
+	fn finish_type_annotations((plan, residual): Self::TypeAnnotationsResidual, type_annotations_visitor: Self::TypeAnnotationsVisitor) -> Result<Self> {
+		Ok(MaskedCode { plan, inner: CodeVisitor::finish_type_annotations(residual, type_annotations_visitor)? })
+	}
+	fn visit_unknown_attribute(&mut self, unknown_attribute: Self::UnknownAttribute) -> Result<()> {
+		self.inner.visit_unknown_attribute(unknown_attribute)
+	}
+}
